@@ -226,6 +226,11 @@ func nontrivial(m *afm.Metrics, feat map[string]bool) bool {
 type metricsCase struct {
 	M      *afm.Metrics `json:"m"`
 	Layout []byte       `json:"layout,omitempty"` // (b): the text fed to the reader
+	// PriorFail > 0: before the write that is examined, a variant of the
+	// metrics (other version, notice and widths) is written to a destination
+	// that fails after PriorFail-1 bytes - what a full disk or a closed
+	// connection does to an earlier save in the same process
+	PriorFail int `json:"prior_fail,omitempty"`
 }
 
 // writeVia writes m into buf through a writer whose concrete type is a
@@ -247,6 +252,18 @@ func readVia(data []byte) (*afm.Metrics, error) {
 }
 
 func checkOwn(c *metricsCase) string {
+	if c.PriorFail > 0 {
+		alt := *c.M
+		alt.Version, alt.Notice = "0.0prior", "written to the failing destination"
+		alt.Glyphs = map[string]*afm.GlyphInfo{}
+		for n, g := range c.M.Glyphs {
+			h := *g
+			h.WidthX = 7
+			alt.Glyphs[n] = &h
+		}
+		alt.Glyphs["priorglyph"] = &afm.GlyphInfo{WidthX: 1}
+		alt.Write(&iofault.FailWriter{AtCall: -1, AtByte: c.PriorFail - 1})
+	}
 	var buf bytes.Buffer
 	if err := writeVia(c.M, &buf); err != nil {
 		return "Write fails: " + err.Error()
@@ -275,11 +292,15 @@ func checkLayout(c *metricsCase) string {
 func TestP1RoundTrip(t *testing.T) {
 	rec := ev.New("C15", "roundtrip")
 	defer rec.Finish(t)
-	rec.Rule("afm.Metrics values in the representable domain: 0-12 glyphs with names that are single tokens without ';' (incl. names equal to AFM keywords N, C, WX, L, B, KPX, Comment and names over all printable bytes), integer widths in the int16 range incl. extremes, integer boxes or none, 0-4 ligatures per glyph, injective encodings, header numbers integral (ItalicAngle with two decimals), single-token FontName, single-spaced text in FullName / Version / Notice (possibly empty), 0-6 kerning pairs. Oracle (a): Read(Write(M)) equals M in every glyph field, the code of each glyph, kerning order and every header field incl. Version and Notice. Oracle (b): Read(layout(M)) equals M, where layout is the harness's own AFM writer with shuffled header and glyph lines, shuffled fields within a line, varying white space, CRLF, comments, extra header keys. Non-trivial: >= 3 glyphs, >= 1 ligature, >= 1 kerning pair; distinct by metrics value.")
+	rec.Rule("afm.Metrics values in the representable domain: 0-12 glyphs with names that are single tokens without ';' (incl. names equal to AFM keywords N, C, WX, L, B, KPX, Comment and names over all printable bytes), integer widths in the int16 range incl. extremes, integer boxes or none, 0-4 ligatures per glyph, injective encodings, header numbers integral (ItalicAngle with two decimals), single-token FontName, single-spaced text in FullName / Version / Notice (possibly empty), 0-6 kerning pairs. A third of the values is written after a variant of them was written to a destination failing at a drawn byte. Oracle (a): Read(Write(M)) equals M in every glyph field, the code of each glyph, kerning order and every header field incl. Version and Notice. Oracle (b): Read(layout(M)) equals M, where layout is the harness's own AFM writer with shuffled header and glyph lines, shuffled fields within a line, varying white space, CRLF, comments, extra header keys. Non-trivial: >= 3 glyphs, >= 1 ligature, >= 1 kerning pair; distinct by metrics value.")
 	ev.SetupRapid(80000, 3200000)
 	rapid.Check(t, func(t *rapid.T) {
 		m, feat := genMetrics(t)
 		c := &metricsCase{M: m, Layout: afmref.Write(m, t1gen.RapidChooser{T: t})}
+		if rapid.IntRange(0, 2).Draw(t, "priorfail") == 0 {
+			c.PriorFail = 1 + rapid.IntRange(0, len(c.Layout)+200).Draw(t, "priorat")
+			rec.Class("after a failed write")
+		}
 		rec.Eval(2)
 		for k := range feat {
 			rec.Class(k)
